@@ -96,7 +96,8 @@ func DriveTree(r *rec.Rec, rng *rand.Rand, run, ops int, variant string) {
 		cmpPerLevel = 15
 	}
 	var cmps int
-	m := NewSMap(kind, U, &cmps)
+	var cmpPairs [][2]int
+	m := NewSMapObs(kind, U, &cmps, func(a, b int) { cmpPairs = append(cmpPairs, [2]int{a, b}) })
 	sh := m.(shaper)
 	shapeEvery := 1
 	if U > 400 {
@@ -161,6 +162,7 @@ func DriveTree(r *rec.Rec, rng *rand.Rand, run, ops int, variant string) {
 		}
 		var res any
 		cmps = 0
+		cmpPairs = cmpPairs[:0]
 		if msg := watch(r, name, func() {
 			if name == "Get" {
 				res = m.Get(k)
@@ -176,7 +178,41 @@ func DriveTree(r *rec.Rec, rng *rand.Rand, run, ops int, variant string) {
 			emit(name, []int{k}, res, false, nil)
 			return
 		}
-		emit(name, []int{k}, res, false, map[string]any{"cmps": cmps, "depth": d, "cmp_per_level": cmpPerLevel})
+		// comparator calls per level: a call is attributed to the level of the node key it involves
+		level := map[int]int{}
+		for _, nd := range s.Nodes {
+			for _, nk := range nd.Keys {
+				level[nk] = nd.Level
+			}
+		}
+		perLevel := make([]int, d+1)
+		for _, pr := range cmpPairs {
+			other := pr[1]
+			if _, ok := level[other]; !ok || cls(other) == cls(k) && cls(pr[0]) != cls(k) {
+				other = pr[0]
+			}
+			if lv, ok := level[other]; ok && lv <= d {
+				perLevel[lv]++
+			}
+		}
+		emit(name, []int{k}, res, false, map[string]any{"cmps": cmps, "depth": d, "cmp_per_level": cmpPerLevel, "cmplv": perLevel})
+	}
+	// a key at the end of a node that is exactly full (15 keys): the most expensive lookup of its level
+	fullNodeKey := func() int {
+		var s ShapeInt
+		if msg := rec.Try(func() { s = sh.ShapeInt() }); msg != "" {
+			return 0
+		}
+		var cands []int
+		for _, nd := range s.Nodes {
+			if nd.N == 15 && len(nd.Keys) == 15 {
+				cands = append(cands, nd.Keys[14], nd.Keys[13])
+			}
+		}
+		if len(cands) == 0 {
+			return 0
+		}
+		return cands[rng.Intn(len(cands))]
 	}
 	type liveIt struct {
 		it   iterator.Iterator[[2]int]
@@ -310,6 +346,11 @@ func DriveTree(r *rec.Rec, rng *rand.Rand, run, ops int, variant string) {
 			c = 1 + rng.Intn(nClasses)
 		}
 		put(keyOfClass(c))
+		if !noShape && rng.Intn(6) == 0 {
+			if k := fullNodeKey(); k != 0 {
+				lookup(k)
+			}
+		}
 		if rng.Intn(12) == 0 {
 			if cleanIter {
 				newIter(1)
@@ -346,7 +387,11 @@ func DriveTree(r *rec.Rec, rng *rand.Rand, run, ops int, variant string) {
 				nextIter(i)
 			}
 		case c < 34:
-			lookup(nearIter())
+			if k := fullNodeKey(); k != 0 && rng.Intn(3) == 0 {
+				lookup(k)
+			} else {
+				lookup(nearIter())
+			}
 		case c < 38:
 			call("Len", []int{}, false, func() any { return m.Len() })
 		case c < 41:
